@@ -5,6 +5,7 @@ import (
 	"fmt"
 	"runtime"
 	"strings"
+	"sync"
 	"sync/atomic"
 	"time"
 
@@ -493,4 +494,185 @@ func cmdPoolStop() {
 			}
 		}
 	}()
+}
+
+// ---- C10: cancellation of the context given to Start while the execution loop is busy ----
+// The loop of the run is held outside its select (inside a blocking-mode job that returns late, or inside a
+// slow Size / Head / Pop of a custom queue) when the context is cancelled.  Cancellation is equivalent to
+// Stop whatever the loop is doing: IsStarted turns false, a following Start is effective (IsStarted true, and
+// it stays true when the old loop finally returns), and a job due then is executed by the new run.
+type busyCancelResult struct {
+	Kind                string   `json:"kind"`
+	Trial               int      `json:"trial"`
+	Variant             string   `json:"variant"` // job | Size | Head | Pop  (where the loop is held)
+	Restart             bool     `json:"restart"` // true: Start while the old loop is still held; false: Start after it was let go
+	Ops                 []string `json:"ops"`
+	StartedAfterCancel  bool     `json:"started_after_cancel"`  // IsStarted 3 s after the cancellation (polled)
+	StartedAfterStart   bool     `json:"started_after_start"`   // IsStarted after the following Start
+	StartedAfterRelease bool     `json:"started_after_release"` // ... and once the old loop has been let go
+	Stable              bool     `json:"stable"`
+	Fired               int32    `json:"probe_execs"` // executions of a job scheduled (due at once) at the end
+	FiredStale          int32    `json:"probe_execs_with_cancelled_ctx"`
+	WaitOK              bool     `json:"wait_returned"`
+	Error               string   `json:"error,omitempty"`
+}
+
+func runBusyCancel(trial int, variant string, restart bool) (res busyCancelResult) {
+	res = busyCancelResult{Kind: "busycancel", Trial: trial, Variant: variant, Restart: restart}
+	q := &rQueue{JobQueue: quartz.NewJobQueue(), arrive: make(chan rArrival)}
+	opts := []quartz.SchedulerOpt{quartz.WithQueue(q, &sync.Mutex{}), quartz.WithOutdatedThreshold(time.Hour)}
+	if variant == "job" {
+		opts = append(opts, quartz.WithBlockingExecution())
+	} else {
+		q.gated.Store(true)
+	}
+	s, _ := quartz.NewStdScheduler(opts...)
+	hour := time.Hour
+	jobIn, jobOut := make(chan struct{}), make(chan struct{})
+	var held rArrival
+	auto := make(chan struct{}) // closed: every further arrival is let through at once
+	autoDone := make(chan struct{})
+	defer func() {
+		select {
+		case <-jobOut:
+		default:
+			close(jobOut)
+		}
+		if held.rel != nil {
+			select {
+			case <-held.rel:
+			default:
+				close(held.rel)
+			}
+		}
+		q.gated.Store(false)
+		select {
+		case <-auto:
+		default:
+			close(auto)
+		}
+		res.WaitOK = stopAndWait(s, 6*time.Second)
+		close(autoDone)
+	}()
+	go func() {
+		<-auto
+		for {
+			select {
+			case a := <-q.arrive:
+				close(a.rel)
+			case <-autoDone:
+				return
+			}
+		}
+	}()
+	switch variant {
+	case "job":
+		// the job returns only when it is told to, long after its context was cancelled
+		s.ScheduleJob(detail("late", func(context.Context) error { close(jobIn); <-jobOut; return nil }), relTrigger(-time.Millisecond, 2*hour))
+	case "Pop":
+		s.ScheduleJob(detail("due", func(context.Context) error { return nil }), relTrigger(-time.Millisecond, 2*hour))
+	default:
+		s.ScheduleJob(detail("far", func(context.Context) error { return nil }), relTrigger(hour, 2*hour))
+	}
+	ctx1, cancel1 := context.WithCancel(context.Background())
+	defer cancel1()
+	s.Start(ctx1)
+	res.Ops = append(res.Ops, "start")
+	if variant == "job" {
+		select {
+		case <-jobIn:
+		case <-time.After(5 * time.Second):
+			res.Error = "the blocking job did not start"
+			return
+		}
+	} else {
+		for {
+			var a rArrival
+			select {
+			case a = <-q.arrive:
+			case <-time.After(5 * time.Second):
+				res.Error = "the loop did not reach " + variant
+				return
+			}
+			if a.name == variant {
+				held = a
+				break
+			}
+			close(a.rel)
+		}
+	}
+	// the loop of run 1 is busy; everything else the queue is asked from now on is answered at once
+	close(auto)
+	cancel1()
+	res.Ops = append(res.Ops, "cancel")
+	pollUntil(3*time.Second, func() bool { return !s.IsStarted() })
+	res.StartedAfterCancel = s.IsStarted()
+	release := func() {
+		if variant == "job" {
+			close(jobOut)
+		} else {
+			close(held.rel)
+		}
+		time.Sleep(60 * time.Millisecond) // the old loop runs into its ctx.Done and returns
+	}
+	ctx2, cancel2 := context.WithCancel(context.Background())
+	defer cancel2()
+	if restart {
+		s.Start(ctx2)
+		res.Ops = append(res.Ops, "start")
+		res.StartedAfterStart = s.IsStarted()
+		release()
+	} else {
+		release()
+		s.Start(ctx2)
+		res.Ops = append(res.Ops, "start")
+		res.StartedAfterStart = s.IsStarted()
+		time.Sleep(20 * time.Millisecond)
+	}
+	res.StartedAfterRelease = s.IsStarted()
+	time.Sleep(60 * time.Millisecond)
+	res.Stable = s.IsStarted() == res.StartedAfterRelease
+	var ran, stale atomic.Int32
+	s.ScheduleJob(detail("probe", func(ctx context.Context) error {
+		if ctx.Err() != nil {
+			stale.Add(1)
+		}
+		ran.Add(1)
+		return nil
+	}), relTrigger(-time.Millisecond, 3*hour))
+	pollUntil(4*time.Second, func() bool { return ran.Load() > 0 })
+	time.Sleep(20 * time.Millisecond)
+	res.Fired, res.FiredStale = ran.Load(), stale.Load()
+	return
+}
+
+// busycancel <seed> <rounds>
+func cmdBusyCancel() {
+	rounds := argInt(3, 2)
+	var wg sync.WaitGroup
+	sem := make(chan struct{}, 8)
+	trial := 0
+	for r := 0; r < rounds; r++ {
+		for _, v := range []string{"job", "Size", "Head", "Pop"} {
+			for _, restart := range []bool{true, false} {
+				v, restart, t := v, restart, trial
+				trial++
+				wg.Add(1)
+				go func() {
+					defer wg.Done()
+					sem <- struct{}{}
+					defer func() { <-sem }()
+					ch := make(chan busyCancelResult, 1)
+					go func() { ch <- runBusyCancel(t, v, restart) }()
+					select {
+					case x := <-ch:
+						emit(x)
+					case <-time.After(40 * time.Second):
+						emit(busyCancelResult{Kind: "busycancel", Trial: t, Variant: v, Restart: restart, Error: "trial did not finish within 40 s"})
+					}
+				}()
+			}
+		}
+	}
+	wg.Wait()
 }
